@@ -193,6 +193,14 @@ def run_history(item):
                         if got2 != got:
                             errs.append('StringIO and open file sinks '
                                         'received different text')
+                        # a stream that already holds text (position != 0)
+                        s3 = io.StringIO()
+                        s3.write('# header\n')
+                        dump(obj, s3, **kw)
+                        if s3.getvalue() != '# header\n' + got[1]:
+                            errs.append('a stream that already held text '
+                                        'received %r, a fresh one %r' % (
+                                            s3.getvalue()[9:][:80], got[1][:80]))
                 except Exception as e:  # noqa
                     got = ['ERR', type(e).__name__]
                 for f in _opened:
